@@ -152,6 +152,12 @@ func runSeg(c segCase) harness.Result {
 	if c.Lockstep {
 		labels = append(labels, "lockstep")
 	}
+	for i, s := range p.segments {
+		if i > 0 && hostile.StartsWithToken(s) {
+			labels = append(labels, "later-segment-begins-with-foreign-token")
+			break
+		}
+	}
 	var err error
 	if c.Level == "B" {
 		err = runServer(c, p, ref)
